@@ -12,40 +12,54 @@
 (* is w -> w^-1 = -w^3, the sqrt2-conjugation is w -> -w.  The SO(3)       *)
 (* matrix of U is the adjoint representation R_ij = 1/2 Tr(s_i U s_j U^+). *)
 (* TLC integers are 32 bit; TLC reports any overflow as an error.          *)
+(*                                                                         *)
+(* TLC passes operator arguments lazily and re-evaluates them at every     *)
+(* use.  Every operator below that uses an argument more than once is a    *)
+(* wrapper  Op(x, y) == F2(OpV, x, y): F1/F2/F3 evaluate the arguments     *)
+(* ONCE (binding them as elements of singleton sets) and then apply the    *)
+(* defining operator OpV, so nested terms cost what they should.           *)
 (***************************************************************************)
 EXTENDS Integers, Sequences, TLC
 
-\* TLC passes operator arguments lazily and re-evaluates them at every use: F1/F2/F3 evaluate the arguments ONCE
-\* (binding them as elements of singleton sets) before applying Op, so nested terms cost what they should.
 F1(Op(_), a) == CHOOSE r \in {Op(av) : av \in {a}} : TRUE
 F2(Op(_, _), a, b) == CHOOSE r \in {Op(av, bv) : av \in {a}, bv \in {b}} : TRUE
 F3(Op(_, _, _), a, b, c) == CHOOSE r \in {Op(av, bv, cv) : av \in {a}, bv \in {b}, cv \in {c}} : TRUE
 AbsI(n) == IF n < 0 THEN -n ELSE n
 MaxI(p, q) == IF p < q THEN q ELSE p
-SeqAllEven(s) == \A i \in 1..Len(s) : s[i] % 2 = 0
+SeqAllEvenV(s) == \A i \in 1..Len(s) : s[i] % 2 = 0
+SeqAllEven(s) == F1(SeqAllEvenV, s)
 
 (* ------------------------------- Z[sqrt2] ------------------------------ *)
 S2Zero == <<0, 0>>
 S2One == <<1, 0>>
 S2Root2 == <<0, 1>>
 S2Int(n) == <<n, 0>>
-S2Add(x, y) == <<x[1] + y[1], x[2] + y[2]>>
-S2Neg(x) == <<-x[1], -x[2]>>
-S2Sub(x, y) == <<x[1] - y[1], x[2] - y[2]>>
-S2Scale(n, x) == <<n * x[1], n * x[2]>>
+S2AddV(x, y) == <<x[1] + y[1], x[2] + y[2]>>
+S2NegV(x) == <<-x[1], -x[2]>>
+S2SubV(x, y) == <<x[1] - y[1], x[2] - y[2]>>
+S2ScaleV(n, x) == <<n * x[1], n * x[2]>>
 \* (a + b r)(c + d r) = ac + 2bd + (ad + bc) r,  r*r = 2
-S2Mul(x, y) == <<x[1] * y[1] + 2 * (x[2] * y[2]), x[1] * y[2] + x[2] * y[1]>>
+S2MulV(x, y) == <<x[1] * y[1] + 2 * (x[2] * y[2]), x[1] * y[2] + x[2] * y[1]>>
+S2Adj2V(x) == <<x[1], -x[2]>>                    \* r -> -r
+S2Add(x, y) == F2(S2AddV, x, y)
+S2Neg(x) == F1(S2NegV, x)
+S2Sub(x, y) == F2(S2SubV, x, y)
+S2Scale(n, x) == F2(S2ScaleV, n, x)
+S2Mul(x, y) == F2(S2MulV, x, y)
 S2Conj(x) == x                                   \* real
-S2Adj2(x) == <<x[1], -x[2]>>                     \* r -> -r
-S2Norm(x) == S2Mul(x, S2Adj2(x))[1]              \* x * x' is a rational integer: a^2 - 2 b^2
+S2Adj2(x) == F1(S2Adj2V, x)
+S2NormV(x) == S2MulV(x, S2Adj2V(x))[1]           \* x * x' is a rational integer (= a^2 - 2 b^2)
+S2Norm(x) == F1(S2NormV, x)
 RECURSIVE S2Pow(_, _)
-S2Pow(x, n) == IF n = 0 THEN S2One ELSE S2Mul(S2Pow(x, n - 1), x)
+S2Pow(x, n) == IF n = 0 THEN S2One ELSE S2Mul(F2(S2Pow, x, n - 1), x)
 \* y | x in Z[sqrt2] (y # 0): x * y' is divisible by N(y) = y * y'
-S2Num(x, y) == LET p == S2Mul(x, S2Adj2(y)) IN IF S2Norm(y) < 0 THEN S2Neg(p) ELSE p
-S2Divides(y, x) == LET n == AbsI(S2Norm(y))  p == S2Num(x, y) IN p[1] % n = 0 /\ p[2] % n = 0
-S2Quot(x, y) == LET n == AbsI(S2Norm(y))  p == S2Num(x, y) IN <<p[1] \div n, p[2] \div n>>     \* when y | x
+S2NumV(x, y) == LET p == S2MulV(x, S2Adj2V(y)) IN IF S2NormV(y) < 0 THEN S2NegV(p) ELSE p
+S2DividesV(y, x) == \A p \in {S2NumV(x, y)}, n \in {AbsI(S2NormV(y))} : p[1] % n = 0 /\ p[2] % n = 0
+S2Divides(y, x) == F2(S2DividesV, y, x)
+S2QuotV(x, y) == CHOOSE q \in {<<p[1] \div n, p[2] \div n>> : p \in {S2NumV(x, y)}, n \in {AbsI(S2NormV(y))}} : TRUE
+S2Quot(x, y) == F2(S2QuotV, x, y)                \* when y | x
 \* all square roots with coefficients in -B..B (r*r = x forces a^2 + 2b^2 = x[1])
-S2Roots(x, B) == {r \in (-B..B) \X (-B..B) : S2Mul(r, r) = x}
+S2Roots(x, B) == {r \in (-B..B) \X (-B..B) : S2MulV(r, r) = x}
 
 (* ------------------------------- Z[omega] ------------------------------ *)
 OmZero == <<0, 0, 0, 0>>
@@ -55,100 +69,131 @@ OmI == <<0, 1, 0, 0>>                            \* omega^2 = i
 OmRoot2 == <<-1, 0, 1, 0>>                       \* omega - omega^3 = sqrt2
 OmInt(n) == <<0, 0, 0, n>>
 OmC(z, i) == z[4 - i]                            \* coefficient of omega^i, i in 0..3
-OmAdd(x, y) == <<x[1] + y[1], x[2] + y[2], x[3] + y[3], x[4] + y[4]>>
-OmNeg(x) == <<-x[1], -x[2], -x[3], -x[4]>>
-OmSub(x, y) == <<x[1] - y[1], x[2] - y[2], x[3] - y[3], x[4] - y[4]>>
-OmScale(n, x) == <<n * x[1], n * x[2], n * x[3], n * x[4]>>
+OmAddV(x, y) == <<x[1] + y[1], x[2] + y[2], x[3] + y[3], x[4] + y[4]>>
+OmNegV(x) == <<-x[1], -x[2], -x[3], -x[4]>>
+OmSubV(x, y) == <<x[1] - y[1], x[2] - y[2], x[3] - y[3], x[4] - y[4]>>
+OmScaleV(n, x) == <<n * x[1], n * x[2], n * x[3], n * x[4]>>
 \* coefficient of w^k in x*y:  SUM_i x_i * y_(k-i), where w^(k+4) = -w^k
 OmT(x, y, k, i) == IF i <= k THEN OmC(x, i) * OmC(y, k - i) ELSE -(OmC(x, i) * OmC(y, k + 4 - i))
 OmP(x, y, k) == OmT(x, y, k, 0) + OmT(x, y, k, 1) + OmT(x, y, k, 2) + OmT(x, y, k, 3)
-OmMul(x, y) == <<OmP(x, y, 3), OmP(x, y, 2), OmP(x, y, 1), OmP(x, y, 0)>>
+OmMulV(x, y) == <<OmP(x, y, 3), OmP(x, y, 2), OmP(x, y, 1), OmP(x, y, 0)>>
 \* conj: w^i -> w^-i = -w^(4-i) (i = 1..3);   adj2: sqrt2 -> -sqrt2 is w -> -w, so w^i -> (-1)^i w^i
-OmConj(z) == <<-OmC(z, 1), -OmC(z, 2), -OmC(z, 3), OmC(z, 0)>>
-OmAdj2(z) == <<-OmC(z, 3), OmC(z, 2), -OmC(z, 1), OmC(z, 0)>>
+OmConjV(z) == <<-OmC(z, 1), -OmC(z, 2), -OmC(z, 3), OmC(z, 0)>>
+OmAdj2V(z) == <<-OmC(z, 3), OmC(z, 2), -OmC(z, 1), OmC(z, 0)>>
+OmAdd(x, y) == F2(OmAddV, x, y)
+OmNeg(x) == F1(OmNegV, x)
+OmSub(x, y) == F2(OmSubV, x, y)
+OmScale(n, x) == F2(OmScaleV, n, x)
+OmMul(x, y) == F2(OmMulV, x, y)
+OmConj(z) == F1(OmConjV, z)
+OmAdj2(z) == F1(OmAdj2V, z)
 RECURSIVE OmPow(_, _)
-OmPow(x, n) == IF n = 0 THEN OmOne ELSE OmMul(OmPow(x, n - 1), x)
+OmPow(x, n) == IF n = 0 THEN OmOne ELSE OmMul(F2(OmPow, x, n - 1), x)
 \* the real subring Z[sqrt2]: d + c (w - w^3)
-S2ToOm(x) == <<-x[2], 0, x[2], x[1]>>
-OmIsReal(z) == z[2] = 0 /\ z[1] + z[3] = 0
-OmToS2(z) == <<z[4], z[3]>>                      \* when OmIsReal(z)
-OmNormEl(z) == OmMul(z, OmConj(z))               \* z z^+ (lies in Z[sqrt2])
+S2ToOmV(x) == <<-x[2], 0, x[2], x[1]>>
+S2ToOm(x) == F1(S2ToOmV, x)
+OmIsRealV(z) == z[2] = 0 /\ z[1] + z[3] = 0
+OmIsReal(z) == F1(OmIsRealV, z)
+OmToS2V(z) == <<z[4], z[3]>>                     \* when OmIsReal(z)
+OmToS2(z) == F1(OmToS2V, z)
+OmNormElV(z) == OmMul(z, OmConjV(z))             \* z z^+ (lies in Z[sqrt2])
+OmNormEl(z) == F1(OmNormElV, z)
 OmAbs(z) == S2Norm(OmToS2(OmNormEl(z)))          \* the absolute norm N(z) = (z z^+)(z z^+)' in Z, >= 0
 \* alpha + i*beta + shift
 OmFromSqrtPair(al, be, sh) == OmAdd(OmAdd(S2ToOm(al), OmMul(OmI, S2ToOm(be))), sh)
 OmMulRoot2(z) == OmMul(z, OmRoot2)
 OmRoot2Divides(z) == SeqAllEven(OmMulRoot2(z))   \* z / sqrt2 = z * sqrt2 / 2
-OmDivRoot2(z) == LET p == OmMulRoot2(z) IN <<p[1] \div 2, p[2] \div 2, p[3] \div 2, p[4] \div 2>>
+OmHalveV(p) == <<p[1] \div 2, p[2] \div 2, p[3] \div 2, p[4] \div 2>>
+OmDivRoot2(z) == F1(OmHalveV, OmMulRoot2(z))
 RECURSIVE OmMulRoot2Pow(_, _)
-OmMulRoot2Pow(z, n) == IF n = 0 THEN z ELSE OmMulRoot2Pow(OmMulRoot2(z), n - 1)
+OmMulRoot2Pow(z, n) == IF n = 0 THEN z ELSE F2(OmMulRoot2Pow, OmMulRoot2(z), n - 1)
 \* y | x in Z[omega] (y # 0):  x * y^+ * (y y^+)' is divisible by N(y)
-OmNum(x, y) == OmMul(OmMul(x, OmConj(y)), OmAdj2(OmNormEl(y)))
-OmDivides(y, x) == LET n == OmAbs(y)  p == OmNum(x, y) IN \A i \in 1..4 : p[i] % n = 0
+OmNumV(x, y) == OmMul(OmMul(x, OmConjV(y)), OmAdj2(OmNormElV(y)))
+OmDividesV(y, x) == \A p \in {OmNumV(x, y)}, n \in {OmAbs(y)} : \A i \in 1..4 : p[i] % n = 0
+OmDivides(y, x) == F2(OmDividesV, y, x)
 
 (* ------------------- 2x2 matrices  e / sqrt2^k over Z[omega] ----------- *)
 M2(k, e) == [k |-> k, e |-> e]
 M2Id == M2(0, <<OmOne, OmZero, OmZero, OmOne>>)
-M2H == M2(1, <<OmOne, OmOne, OmOne, OmNeg(OmOne)>>)
+M2H == M2(1, <<OmOne, OmOne, OmOne, OmNegV(OmOne)>>)
 M2T == M2(0, <<OmOne, OmZero, OmZero, OmW>>)
 M2S == M2(0, <<OmOne, OmZero, OmZero, OmI>>)
 M2X == M2(0, <<OmZero, OmOne, OmOne, OmZero>>)
-M2Y == M2(0, <<OmZero, OmNeg(OmI), OmI, OmZero>>)
-M2Z == M2(0, <<OmOne, OmZero, OmZero, OmNeg(OmOne)>>)
-E2Mul(a, b) == <<OmAdd(OmMul(a[1], b[1]), OmMul(a[2], b[3])), OmAdd(OmMul(a[1], b[2]), OmMul(a[2], b[4])),
-                 OmAdd(OmMul(a[3], b[1]), OmMul(a[4], b[3])), OmAdd(OmMul(a[3], b[2]), OmMul(a[4], b[4]))>>
-M2Mul(A, B) == M2(A.k + B.k, E2Mul(A.e, B.e))
+M2Y == M2(0, <<OmZero, OmNegV(OmI), OmI, OmZero>>)
+M2Z == M2(0, <<OmOne, OmZero, OmZero, OmNegV(OmOne)>>)
+E2MulV(a, b) == <<OmAdd(OmMulV(a[1], b[1]), OmMulV(a[2], b[3])), OmAdd(OmMulV(a[1], b[2]), OmMulV(a[2], b[4])),
+                  OmAdd(OmMulV(a[3], b[1]), OmMulV(a[4], b[3])), OmAdd(OmMulV(a[3], b[2]), OmMulV(a[4], b[4]))>>
+M2MulV(A, B) == M2(A.k + B.k, F2(E2MulV, A.e, B.e))
+M2Mul(A, B) == F2(M2MulV, A, B)
 E2Map(Op(_), e) == <<Op(e[1]), Op(e[2]), Op(e[3]), Op(e[4])>>
 \* the same value over the larger denominator exponent K >= A.k
-M2Lift(A, K) == M2(K, LET n == K - A.k IN E2Map(LAMBDA z : OmMulRoot2Pow(z, n), A.e))
-M2ValEq(A, B) == LET K == MaxI(A.k, B.k) IN M2Lift(A, K).e = M2Lift(B, K).e
-M2Add(A, B) == LET K == MaxI(A.k, B.k)  a == M2Lift(A, K).e  b == M2Lift(B, K).e IN
-               M2(K, <<OmAdd(a[1], b[1]), OmAdd(a[2], b[2]), OmAdd(a[3], b[3]), OmAdd(a[4], b[4])>>)
-M2Neg(A) == M2(A.k, E2Map(OmNeg, A.e))
-M2ScaleOm(A, z) == M2(A.k, E2Map(LAMBDA w : OmMul(w, z), A.e))
+M2LiftV(A, K) == M2(K, E2Map(LAMBDA z : OmMulRoot2Pow(z, K - A.k), A.e))
+M2Lift(A, K) == F2(M2LiftV, A, K)
+M2ValEqV(A, B) == M2LiftV(A, MaxI(A.k, B.k)).e = M2LiftV(B, MaxI(A.k, B.k)).e
+M2ValEq(A, B) == F2(M2ValEqV, A, B)
+E2AddV(a, b) == <<OmAddV(a[1], b[1]), OmAddV(a[2], b[2]), OmAddV(a[3], b[3]), OmAddV(a[4], b[4])>>
+M2AddV(A, B) == M2(MaxI(A.k, B.k), F2(E2AddV, M2LiftV(A, MaxI(A.k, B.k)).e, M2LiftV(B, MaxI(A.k, B.k)).e))
+M2Add(A, B) == F2(M2AddV, A, B)
+M2NegV(A) == M2(A.k, E2Map(OmNegV, A.e))
+M2Neg(A) == F1(M2NegV, A)
+M2ScaleOmV(A, z) == M2(A.k, E2Map(LAMBDA w : OmMulV(w, z), A.e))
+M2ScaleOm(A, z) == F2(M2ScaleOmV, A, z)
 \* entrywise automorphisms of the VALUE e / sqrt2^k: conj fixes sqrt2, adj2 sends sqrt2^k to (-1)^k sqrt2^k
-M2Conj(A) == M2(A.k, E2Map(OmConj, A.e))
-M2Adj2(A) == M2(A.k, E2Map(LAMBDA w : IF A.k % 2 = 0 THEN OmAdj2(w) ELSE OmNeg(OmAdj2(w)), A.e))
-M2Dagger(A) == M2(A.k, <<OmConj(A.e[1]), OmConj(A.e[3]), OmConj(A.e[2]), OmConj(A.e[4])>>)
-M2Mult2k(A, n) == M2(A.k - 2 * n, A.e)                       \* times 2^n = sqrt2^(2n)
-M2IsZero(A) == \A i \in 1..4 : A.e[i] = OmZero
-M2Reducible(A) == \A i \in 1..4 : OmRoot2Divides(A.e[i])
+M2ConjV(A) == M2(A.k, E2Map(OmConjV, A.e))
+M2Conj(A) == F1(M2ConjV, A)
+M2Adj2V(A) == M2(A.k, E2Map(LAMBDA w : IF A.k % 2 = 0 THEN OmAdj2V(w) ELSE OmNegV(OmAdj2V(w)), A.e))
+M2Adj2(A) == F1(M2Adj2V, A)
+M2DaggerV(A) == M2(A.k, <<OmConjV(A.e[1]), OmConjV(A.e[3]), OmConjV(A.e[2]), OmConjV(A.e[4])>>)
+M2Dagger(A) == F1(M2DaggerV, A)
+M2Mult2kV(A, n) == M2(A.k - 2 * n, A.e)                      \* times 2^n = sqrt2^(2n)
+M2Mult2k(A, n) == F2(M2Mult2kV, A, n)
+M2IsZeroV(A) == \A i \in 1..4 : A.e[i] = OmZero
+M2IsZero(A) == F1(M2IsZeroV, A)
+M2ReducibleV(A) == \A i \in 1..4 : OmRoot2Divides(A.e[i])
+M2Reducible(A) == F1(M2ReducibleV, A)
 \* canonical form: the least denominator exponent (zero matrix: k = 0)
-RECURSIVE M2Canon(_)
-M2Canon(A) == IF M2IsZero(A) THEN M2(0, A.e)
-              ELSE IF M2Reducible(A) THEN M2Canon(M2(A.k - 1, E2Map(OmDivRoot2, A.e)))
-              ELSE A
-M2Trace(A) == OmAdd(A.e[1], A.e[4])              \* numerator only
+RECURSIVE M2CanonV(_)
+M2CanonV(A) == IF M2IsZeroV(A) THEN M2(0, A.e)
+               ELSE IF M2ReducibleV(A) THEN F1(M2CanonV, M2(A.k - 1, E2Map(OmDivRoot2, A.e)))
+               ELSE A
+M2Canon(A) == F1(M2CanonV, A)
+M2TraceV(A) == OmAddV(A.e[1], A.e[4])            \* numerator only
+M2Trace(A) == F1(M2TraceV, A)
 M2IsUnitary(A) == M2ValEq(M2Mul(A, M2Dagger(A)), M2Id)
 
 (* ------------------- 3x3 matrices  e / sqrt2^k over Z[sqrt2] ----------- *)
 M3(k, e) == [k |-> k, e |-> e]
 RECURSIVE S2MulRoot2Pow(_, _)
-S2MulRoot2Pow(x, n) == IF n = 0 THEN x ELSE S2MulRoot2Pow(S2Mul(x, S2Root2), n - 1)
-M3Lift(R, K) == M3(K, LET n == K - R.k IN [i \in 1..9 |-> S2MulRoot2Pow(R.e[i], n)])
-M3ValEq(R, Q) == LET K == MaxI(R.k, Q.k) IN M3Lift(R, K).e = M3Lift(Q, K).e
-M3Ent(a, b, i, j) == S2Add(S2Add(S2Mul(a[3 * (i - 1) + 1], b[j]), S2Mul(a[3 * (i - 1) + 2], b[3 + j])),
-                           S2Mul(a[3 * (i - 1) + 3], b[6 + j]))
-M3Mul(R, Q) == M3(R.k + Q.k, [n \in 1..9 |-> M3Ent(R.e, Q.e, ((n - 1) \div 3) + 1, ((n - 1) % 3) + 1)])
-M3Transpose(R) == M3(R.k, [n \in 1..9 |-> R.e[3 * ((n - 1) % 3) + ((n - 1) \div 3) + 1]])
+S2MulRoot2Pow(x, n) == IF n = 0 THEN x ELSE F2(S2MulRoot2Pow, S2Mul(x, S2Root2), n - 1)
+M3LiftV(R, K) == M3(K, TLCEval([i \in 1..9 |-> S2MulRoot2Pow(R.e[i], K - R.k)]))
+M3ValEqV(R, Q) == M3LiftV(R, MaxI(R.k, Q.k)).e = M3LiftV(Q, MaxI(R.k, Q.k)).e
+M3ValEq(R, Q) == F2(M3ValEqV, R, Q)
+M3Ent(a, b, i, j) == S2Add(S2Add(S2MulV(a[3 * (i - 1) + 1], b[j]), S2MulV(a[3 * (i - 1) + 2], b[3 + j])),
+                           S2MulV(a[3 * (i - 1) + 3], b[6 + j]))
+M3MulV(R, Q) == M3(R.k + Q.k, TLCEval([n \in 1..9 |-> M3Ent(R.e, Q.e, ((n - 1) \div 3) + 1, ((n - 1) % 3) + 1)]))
+M3Mul(R, Q) == F2(M3MulV, R, Q)
+M3TransposeV(R) == M3(R.k, TLCEval([n \in 1..9 |-> R.e[3 * ((n - 1) % 3) + ((n - 1) \div 3) + 1]]))
+M3Transpose(R) == F1(M3TransposeV, R)
 M3Id == M3(0, <<S2One, S2Zero, S2Zero, S2Zero, S2One, S2Zero, S2Zero, S2Zero, S2One>>)
-M3IsZero(R) == \A n \in 1..9 : R.e[n] = S2Zero
+M3IsZeroV(R) == \A n \in 1..9 : R.e[n] = S2Zero
 \* (a + b r) / r = b + (a/2) r  when a is even
-M3Reducible(R) == \A n \in 1..9 : R.e[n][1] % 2 = 0
-RECURSIVE M3Canon(_)
-M3Canon(R) == IF M3IsZero(R) THEN M3(0, R.e)
-              ELSE IF M3Reducible(R) THEN M3Canon(M3(R.k - 1, [n \in 1..9 |-> <<R.e[n][2], R.e[n][1] \div 2>>]))
-              ELSE R
+M3ReducibleV(R) == \A n \in 1..9 : R.e[n][1] % 2 = 0
+RECURSIVE M3CanonV(_)
+M3CanonV(R) == IF M3IsZeroV(R) THEN M3(0, R.e)
+               ELSE IF M3ReducibleV(R) THEN F1(M3CanonV, M3(R.k - 1, TLCEval([n \in 1..9 |-> <<R.e[n][2], R.e[n][1] \div 2>>])))
+               ELSE R
+M3Canon(R) == F1(M3CanonV, R)
 \* adjoint representation: R_ij = 1/2 Tr(s_i U s_j U^+),  U = e / sqrt2^k  ==>  numerators over sqrt2^(2k + 2)
 Pauli(i) == CASE i = 1 -> M2X [] i = 2 -> M2Y [] i = 3 -> M2Z
-SO3Ent(A, i, j) == OmToS2(M2Trace(M2Mul(M2Mul(Pauli(i), A), M2Mul(Pauli(j), M2Dagger(A)))))
-SO3EntReal(A, i, j) == OmIsReal(M2Trace(M2Mul(M2Mul(Pauli(i), A), M2Mul(Pauli(j), M2Dagger(A)))))
-SO3Ref(A) == M3(2 * A.k + 2, [n \in 1..9 |-> SO3Ent(A, ((n - 1) \div 3) + 1, ((n - 1) % 3) + 1)])
+SO3Tr(A, i, j) == M2Trace(M2Mul(M2Mul(Pauli(i), A), M2Mul(Pauli(j), M2DaggerV(A))))
+SO3RefV(A) == M3(2 * A.k + 2, TLCEval([n \in 1..9 |-> OmToS2(SO3Tr(A, ((n - 1) \div 3) + 1, ((n - 1) % 3) + 1))]))
+SO3Ref(A) == F1(SO3RefV, A)
+SO3AllRealV(A) == \A i \in 1..3, j \in 1..3 : OmIsReal(SO3Tr(A, i, j))
+SO3AllReal(A) == F1(SO3AllRealV, A)
 
 (* ------------------------------ number theory -------------------------- *)
-\* r = floor(sqrt(n)) is supplied as a hint and verified
-IsIsqrt(r, n) == r >= 0 /\ r * r <= n /\ (r + 1) * (r + 1) > n
 \* trial division; R is any bound with R * R >= n (supplied as a hint and verified by the caller)
 IsPrimeB(n, R) == n >= 2 /\ \A d \in 2..R : d * d > n \/ n % d # 0
 RECURSIVE SeqProd(_, _)
-SeqProd(s, i) == IF i = 0 THEN 1 ELSE SeqProd(s, i - 1) * s[i]
+SeqProd(s, i) == IF i = 0 THEN 1 ELSE F2(SeqProd, s, i - 1) * s[i]
 =============================================================================
